@@ -74,6 +74,17 @@ using overflow_checker = conditional_t<
 struct to_integer_options {
     bool skip_whitespace = true;
     bool check_overflow  = true;
+
+    /// Follow the C library functions (strtol, strtoul, atoi, ...) instead of
+    /// from_chars where the two differ.
+    bool c_library_syntax = false;
+};
+
+/// \brief Options used by strtol, strtoul, atoi, stoi and their siblings.
+inline constexpr auto c_library_to_integer_options = to_integer_options{
+    .skip_whitespace  = true,
+    .check_overflow   = true,
+    .c_library_syntax = true,
 };
 
 enum struct to_integer_error : unsigned char {
@@ -124,6 +135,16 @@ template <integral Int, to_integer_options Options = to_integer_options{}>
             positive = false;
             if (++pos == length) {
                 // minus "-" was last character in string
+                return makeError(to_integer_error::invalid_input);
+            }
+        }
+    }
+
+    // optional plus, only for the C library functions
+    if constexpr (Options.c_library_syntax) {
+        if (positive and str[pos] == '+') {
+            if (++pos == length) {
+                // plus "+" was last character in string
                 return makeError(to_integer_error::invalid_input);
             }
         }
